@@ -215,6 +215,45 @@ def judge_client(c, rc, so, path):
     c.cov["evaluations"] += len(g["log"])
 
 
+def judge_refresher(c, rc, path):
+    """Growth (DESIGN.md 6.6): the real RefreshTokenSource with a scripted refresher, validated by Trace_TokenRefresh"""
+    if rc != 0 or not os.path.exists(path):
+        c.drift("refresher scenario failed rc=%s" % rc)
+        return
+    evs = read_ndjson(path)
+    starts = sum(1 for e in evs if e["ev"] == "start")
+    pubs = [e for e in evs if e["ev"] == "pub"]
+    c.cov["refresher_scenario"] = {"events": len(evs), "calls": starts, "published": len(pubs)}
+    r = c.tlc(SD, "Trace_TokenRefresh", mode="trace", env={"TRACE": path}, timeout=900, expect_violation=True)
+    if r.violated:
+        txt = open(r.out_path, errors="replace").read()
+        import re
+        m = re.findall(r'viol = "([A-Za-z]+)"', txt)
+        what = m[-1] if m else "?"
+        c.violation("refresher:%s" % what, "token refresher: %s violated on the recorded run of the real RefreshTokenSource (TLC output %s)" % (what, r.out_path),
+                    {"trace": path, "tlc_out": r.out_path, "events": evs})
+    elif r.postcondition_failed or not r.ok:
+        c.fail_tool("Trace_TokenRefresh did not consume the whole trace (see %s)" % r.out_path)
+    for d in list({d["line"]: d for d in c.printed_json(r, "DRIFT")}.values())[:10]:
+        c.drift("refresher line %s: %s (%s)" % (d["line"], d["what"], json.dumps(d["e"])))
+    if starts < 6 or len(pubs) < 4:
+        c.drift("refresher scenario incomplete: %d calls, %d publications" % (starts, len(pubs)))
+    else:
+        # binding self-check (S6): a renewal that starts only after the expiry must be flagged
+        bad = path + ".corrupted"
+        ev2 = [dict(e) for e in evs]
+        first_exp = next(e["exp"] for e in ev2 if e["ev"] == "end" and e.get("ok"))
+        for e in ev2[1:]:
+            if e.get("n", 0) == 2 or (e["ev"] == "pub" and e["t"] > 1000 and e["t"] < first_exp):
+                e["t"] += first_exp          # the second call (and its publication) happen after token 1 expired
+        ev2 = [ev2[0]] + sorted(ev2[1:], key=lambda e: e["t"])
+        write_ndjson(bad, ev2)
+        rb = c.tlc(SD, "Trace_TokenRefresh", mode="trace", env={"TRACE": bad}, timeout=900, expect_violation=True)
+        if not rb.violated:
+            c.fail_tool("oracle self-check failed: Trace_TokenRefresh accepts a renewal that starts after the expiry")
+    c.cov["evaluations"] += len(evs)
+
+
 def run(c):
     thorough = c.tier == "thorough"
     binp = c.cargo_build("vh-snap", bin="snaptunnel")
@@ -328,11 +367,16 @@ def run(c):
     gout = os.path.join(c.work, "gateway.json")
     cout = os.path.join(c.work, "client.json")
     from concurrent.futures import ThreadPoolExecutor
-    with ThreadPoolExecutor(2) as ex:       # both scenarios mostly sleep: run them side by side
+    rout = os.path.join(c.work, "refresher.ndjson")
+    with ThreadPoolExecutor(3) as ex:       # the scenarios mostly sleep: run them side by side
         fg = ex.submit(c.sh, [binp, "gateway", gout], 1800)
         fc = ex.submit(c.sh, [binp, "client", cout], 1800)
+        fr = ex.submit(c.sh, [binp, "refresher", rout], 1800) if thorough else None     # ~75 s of real time: thorough only
         (rc, so), (rcc, soc) = fg.result(), fc.result()
+        rcr = fr.result()[0] if fr else None
     judge_client(c, rcc, soc, cout)
+    if fr:
+        judge_refresher(c, rcr, rout)
     if rc != 0 or not os.path.exists(gout):
         c.drift("gateway loop run failed rc=%s %s" % (rc, (so or "")[-300:]))
     else:
